@@ -39,6 +39,13 @@ bad_char = z3.Function("non_identifier_character_witness", S, S)
 ascii_ok = z3.Function("encodes_as_ascii", S, B)
 all_chars_allowed = z3.Function("all_characters_allowed_by_the_grammar", S, B)
 bad_allowed = z3.Function("disallowed_character_witness", S, S)
+elem_of = z3.Function("is_an_element_of", I, I, B)                   # (element value id, collection value id)
+pylen = z3.Function("len_of_value", I, I)
+scalar_ok = z3.Function("is_scalar", I, B)                           # self.is_scalar(value)
+inner_ok = z3.Function("inner_elements_are_scalars", I, B)           # every element of the list is a scalar and not a list
+elems_ok = z3.Function("elements_are_scalars_or_lists_of_scalars", I, B)
+inner_wit = z3.Function("inner_element_witness", I, I)
+elems_wit = z3.Function("element_witness", I, I)
 first_of = z3.Function("first_item_of_table", I, S)
 fmt_fn = z3.Function("encoder_format", S, I, S)                      # self.format(text, level)
 module_text = z3.Function("encode_module_text", I, I, S)             # self.encode_module(value, level)
@@ -71,6 +78,14 @@ def _cm(t, a, b):
     return z3.And(prefixof(t, a), z3.Or(suffixof(t, b), z3.And(b == nl, z3.Not(sub_in(nl, t)))))
 
 
+def _inner_j(u):
+    return z3.And(z3.Not(type_is(u, type_id("list"))), scalar_ok(u))
+
+
+def _outer_j(u):
+    return z3.If(type_is(u, type_id("list")), inner_ok(u), scalar_ok(u))
+
+
 def _identchar(c):
     return z3.Or(z3.Function("str_isalpha", S, B)(c), z3.Function("str_isdigit", S, B)(c), c == lit("_"))
 
@@ -88,6 +103,7 @@ class EncTheory(LexTheory):
         x, y, w = z3.Consts("ex ey ew", S)
         k = z3.Const("ek", I)
         v = z3.Const("ev", I)
+        u = z3.Const("eu", I)
         empty = lit("")
         return super().axioms() + [
             z3.ForAll([x], strcat(empty, x) == x, patterns=[strcat(empty, x)]),
@@ -121,6 +137,14 @@ class EncTheory(LexTheory):
                       patterns=[z3.MultiPattern(all_chars_allowed(y), char_of(x, y))]),
             z3.ForAll([y], z3.Implies(z3.Not(all_chars_allowed(y)), z3.And(char_of(bad_allowed(y), y), z3.Not(allowed(bad_allowed(y))))),
                       patterns=[all_chars_allowed(y)]),
+            z3.ForAll([v, u], z3.Implies(elem_of(u, v), pylen(v) > 0), patterns=[elem_of(u, v)]),
+            z3.ForAll([v], pylen(v) >= 0, patterns=[pylen(v)]),
+            z3.ForAll([v, u], z3.Implies(z3.And(inner_ok(v), elem_of(u, v)), _inner_j(u)), patterns=[z3.MultiPattern(inner_ok(v), elem_of(u, v))]),
+            z3.ForAll([v], z3.Implies(z3.Not(inner_ok(v)), z3.And(elem_of(inner_wit(v), v), z3.Not(_inner_j(inner_wit(v))))),
+                      patterns=[inner_ok(v)]),
+            z3.ForAll([v, u], z3.Implies(z3.And(elems_ok(v), elem_of(u, v)), _outer_j(u)), patterns=[z3.MultiPattern(elems_ok(v), elem_of(u, v))]),
+            z3.ForAll([v], z3.Implies(z3.Not(elems_ok(v)), z3.And(elem_of(elems_wit(v), v), z3.Not(_outer_j(elems_wit(v))))),
+                      patterns=[elems_ok(v)]),
             z3.ForAll([v], z3.Implies(type_is(v, type_id("bool")), type_is(v, type_id("self.numeric_types"))),
                       patterns=[type_is(v, type_id("bool"))]),
         ]
@@ -283,6 +307,8 @@ class EncTheory(LexTheory):
         return super().b_str(ex, args, kwargs)
 
     def b_len(self, ex, args, kwargs):
+        if isinstance(args[0], ObjV) and args[0].role == "pyval":
+            return Z("int", pylen(args[0].info["id"]))
         t = self.sv(args[0])
         if t is not None and not isinstance(args[0], Conc):
             return Z("int", strlen(t))
@@ -456,6 +482,8 @@ class EncTheory(LexTheory):
             return self.search_loop(ex, node, itv, spec, ordn)
         if self.sv(itv) is not None and getattr(spec, "fall_through", None) is not None:
             return self.search_loop(ex, node, ObjV("chars", info={"text": self.sv(itv)}), spec, ordn)
+        if isinstance(itv, ObjV) and itv.role == "pyval" and getattr(spec, "fall_through", None) is not None:
+            return self.search_loop(ex, node, ObjV("elements", info={"id": itv.info["id"]}), spec, ordn)
         if isinstance(itv, ObjV) and itv.role == "enum-chars" and getattr(spec, "fall_through", None) is not None:
             return self.search_loop(ex, node, ObjV("chars", info={"text": itv.info["text"], "enum": True}), spec, ordn)
         return super().for_loop(ex, node, itv, spec, ordn)
@@ -470,8 +498,9 @@ class EncTheory(LexTheory):
         if assigned_in(node.body) - {t.id for t in ast.walk(node.target) if isinstance(t, ast.Name)}:
             raise Untranslatable(f"search loop #{ordn} assigns variables")
         chars = table.role == "chars"
+        elements = table.role == "elements"
         k = table.info["text"] if chars else table.info["id"]
-        member = (lambda x: char_of(x, k)) if chars else (lambda x: set_has(k, x))
+        member = (lambda x: char_of(x, k)) if chars else (lambda x: elem_of(x, k)) if elements else (lambda x: set_has(k, x))
         pairs = table.role == "pairs"
         c = ex.path.choose(2, f"for@{node.lineno}")
         if c == 0:
@@ -479,6 +508,10 @@ class EncTheory(LexTheory):
                 x = (fresh("member_open", S), fresh("member_close", S))
                 ex.st.assume(pairs_has(k, x[0], x[1]))
                 ex.assign(node.target, TupV([Z("str", x[0]), Z("str", x[1])]))
+            elif elements:
+                x = fresh("element_id", I)
+                ex.st.assume(member(x))
+                ex.assign(node.target, ObjV("pyval", info={"id": x}))
             else:
                 x = fresh("member", S)
                 ex.st.assume(member(x))
@@ -486,7 +519,7 @@ class EncTheory(LexTheory):
                     ex.st.assume(strlen(x) == 1)
                 if chars and table.info.get("enum"):
                     ex.assign(node.target, TupV([Z("int", fresh("index", I)), Z("str", x)]))
-                else:
+                elif not elements:
                     ex.assign(node.target, Z("str", x))
             try:
                 ex.stmts(node.body)
@@ -502,7 +535,7 @@ class EncTheory(LexTheory):
             xa, xc = z3.Const("bound_member_open", S), z3.Const("bound_member_close", S)
             closure = z3.ForAll([xa, xc], z3.Implies(pairs_has(k, xa, xc), z3.And(*[f for _, f in J(ex.env, ex.st, (xa, xc))])))
         else:
-            xb = z3.Const("bound_member", S)
+            xb = z3.Const("bound_member", I if elements else S)
             closure = z3.ForAll([xb], z3.Implies(member(xb), z3.And(*[f for _, f in J(ex.env, ex.st, xb)])))
         for nm, f in E(ex.env, ex.st):
             ex.oblige(f"{q}:{lname}:exit-fact-is-the-forall-closure:{nm}", z3.Implies(closure, f))
